@@ -2,7 +2,7 @@
 import ast
 
 from sa.helpers import (mkflow, spec, code, one, calls, bind_call, param_env,
-                        fmt, atom_of, unparse, walk_no_nested, guard_is)
+                        fmt, atom_of, unparse, walk_no_nested, guard_is, the_return)
 from sa.index import AnalysisError, ClassInfo
 from sa.algebra import RF, dotted
 from sa.api import api_obligations
@@ -216,10 +216,24 @@ for V_kw in V_kws:
     site = UH + '::get_klass_args'
     with R.guard('1.loader.args', 'TAB', site, 'keyword list'):
         f = ix.func(site)
-        from sa.helpers import need
-        need(R, '1.loader.args', 'TAB', site, 'constructor keywords = the parameters that have defaults', f,
-             ['V_a, V_va, V_kw, V_d = inspect.getfullargspec(V_k.__init__)[:4]', 'V_out = V_a[-len(V_d):]', 'return V_out'],
-             binding={'V_k': f.params()[0]})
+        from sa.helpers import resolve_guards, has_guard
+        fl = mkflow(ix, site)
+        pe = param_env(fl, f, ['k'])
+        A = spec(fl, 'inspect.getfullargspec(k.__init__)', pe)
+        if not [e for e in calls(fl, 'getfullargspec')]:
+            raise AnalysisError('the constructor is not inspected with inspect.getfullargspec')
+        rv = the_return(fl).value
+        nodef = spec(fl, 'A[3] is None', {'A': A})
+        why = []
+        for scen, want, what in ((True, spec(fl, '[]'), 'a constructor without defaults'),
+                                 (False, spec(fl, 'A[0][-len(A[3]):]', {'A': A}), 'a constructor with defaults')):
+            got = resolve_guards(fl, rv, lambda c: scen if fl.tab.equal(c, nodef) else None)
+            if has_guard(got):
+                raise AnalysisError('the keywords of %s are not settled: %s' % (what, fmt(fl, got)[:200]))
+            if not fl.tab.equal(got, want):
+                why.append('for %s the keywords are %s' % (what, fmt(fl, got)[:160]))
+        R.check('1.loader.args', 'TAB', site, 'constructor keywords = the parameters that have defaults (the last len(defaults) '
+                'positional parameters of __init__)', not why, key='; '.join(why), detail='; '.join(why), loc=f.loc())
     site = UH + '::load_model_from_hdf5'
     with R.guard('1.loader.model', 'TAB', site, 'model'):
         f = ix.func(site)
